@@ -3,6 +3,7 @@ package vegeta
 import (
 	"fmt"
 	"math"
+	"math/bits"
 	"time"
 )
 
@@ -61,14 +62,26 @@ func (cp ConstantPacer) Pace(elapsed time.Duration, hits uint64) (time.Duration,
 		// Running behind, send next hit immediately.
 		return 0, false
 	}
-	interval := uint64(cp.Per.Nanoseconds() / int64(cp.Freq))
-	if math.MaxInt64/interval < hits {
+	// The next hit is due at ceil((hits+1) * Per / Freq). The product is
+	// computed in 128 bits so that neither a fractional interval (Per not
+	// a multiple of Freq, or more than one hit per nanosecond) nor large
+	// hit counts make the pacer drift, divide by zero or wrap around.
+	freq := uint64(cp.Freq)
+	hi, lo := bits.Mul64(hits, uint64(cp.Per))
+	lo, carry := bits.Add64(lo, uint64(cp.Per), 0)
+	if hi += carry; hi >= freq {
 		// We would overflow delta if we continued, so stop the attack.
 		return 0, true
 	}
-	delta := time.Duration((hits + 1) * interval)
+	due, rem := bits.Div64(hi, lo, freq)
+	if rem != 0 {
+		due++ // may wrap to 0, which is an overflow too
+	}
+	if due == 0 || due > math.MaxInt64 {
+		return 0, true
+	}
 	// Zero or negative durations cause time.Sleep to return immediately.
-	return delta - elapsed, false
+	return time.Duration(due) - elapsed, false
 }
 
 // Rate returns a ConstantPacer's instantaneous hit rate (i.e. requests per second)
